@@ -49,6 +49,16 @@ func replaceDots(src string) string {
 		if strings.HasPrefix(src[i:], "...") {
 			prevIdent := i > 0 && isIdentByte(src[i-1])
 			nextIdent := i+3 < len(src) && (isIdentByte(src[i+3]) || src[i+3] == '[' || src[i+3] == '*')
+			if !prevIdent && i+3 < len(src) && src[i+3] == '#' {
+				// "...#name": an elision with an explicit name (the same elision on both sides of a vector)
+				j := i + 4
+				for j < len(src) && isIdentByte(src[j]) {
+					j++
+				}
+				fmt.Fprintf(&sb, "%s%s", dotsPrefix, src[i+4:j])
+				i = j
+				continue
+			}
 			if !prevIdent && !nextIdent {
 				n++
 				fmt.Fprintf(&sb, "%sd%d", dotsPrefix, n)
